@@ -136,6 +136,40 @@ def judge_algebra(link, with_variants=True):
           m, name, ", twice" if rep == 2 else ""), [exp[m]] * (2 * rep), obs)
     chk("argument-changed", "texts after equivalence tests with " + name,
         [txt, vt], [str(x), str(y)])
+  # `*` against a specified overlap: WHAT the answer is is left open by the
+  # property, but the tests must still be symmetric and repeatable, and a
+  # link and its complement must be treated alike
+  if ov != "*":
+    star = link[:4] + ("*",)
+    cstar = R.link_complement(link)[:4] + ("*",)
+    for name, v in (("same ends, overlap *", star),
+                    ("complement ends, overlap *", cstar)):
+      vt = R.link_text(v)
+      x = gfapy.Line(txt, version="gfa1")
+      y = gfapy.Line(vt, version="gfa1")
+      m = "is_eql"
+      a1 = _try(lambda: bool(x.is_eql(y)))
+      b1 = _try(lambda: bool(y.is_eql(x)))
+      a2 = _try(lambda: bool(x.is_eql(y)))
+      chk("equivalence-symmetry", "is_eql(l, {}) vs is_eql({}, l)".format(
+          name, name), a1, b1)
+      chk("equivalence-symmetry", "is_eql(l, {}) asked twice".format(name),
+          a1, a2)
+      chk("argument-changed", "texts after equivalence tests with " + name,
+          [txt, vt], [str(x), str(y)])
+    # the graph treats both forms of the `*` link alike
+    res = []
+    for v in (star, cstar):
+      g = gfapy.Gfa(version="gfa1")
+      for sl in seg_lines(link):
+        g.add_line(sl)
+      g.add_line(txt)
+      r = _try(lambda: g.add_line(R.link_text(v)))
+      res.append(("raises" if isinstance(r, str) else "accepted",
+                  len(g.dovetails), str(g.dovetails[0]) if g.dovetails else ""))
+    chk("star-forms-treated-differently",
+        "add `*` link in direct form vs in complement form to a graph holding l",
+        res[0], res[1])
   return out, None
 
 
